@@ -200,9 +200,56 @@ func structProfile() uni.Profile {
 	return uni.Profile{Depth: 3, Structs: true, Hidden: true, NilLeaves: true, MultiPtr: false}
 }
 
+// c08Sensitive: a struct leaf used DIRECTLY as an operand whose only exported field is hidden
+// (`Value string` tagged "-", as in a secret wrapper) next to unexported state; twins differ in it.
+func c08Sensitive(t *rapid.T, r interface {
+	Case(string, bool, interface{}, ...string)
+}) {
+	strT, intT := uni.Scalar(uni.KString), uni.Scalar(uni.KInt)
+	fname := []string{"Value", "Value", "V", "Secret", "Val"}[rapid.IntRange(0, 4).Draw(t, "hiddenName")]
+	vt := []*uni.Type{strT, intT, uni.PtrTo(strT), uni.Scalar(uni.KBool)}[rapid.IntRange(0, 3).Draw(t, "hiddenType")]
+	sens := uni.StructOf(uni.Field{Name: fname, T: vt, Tag: `bexpr:"-" alt:"-"`}, uni.Field{Name: "salt", T: intT})
+	mkv := func(which int) *uni.Node {
+		var v *uni.Node
+		switch vt.K {
+		case uni.KString:
+			v = uni.Str([]string{"hunter2", "other"}[which])
+		case uni.KInt:
+			v = uni.Int(uni.KInt, int64(which))
+		case uni.KBool:
+			v = uni.Bool(which == 0)
+		default:
+			v = uni.Ptr(uni.Str([]string{"hunter2", "other"}[which]))
+		}
+		return &uni.Node{T: sens, Elems: []*uni.Node{v, uni.Int(uni.KInt, int64(7+which))}}
+	}
+	outer := uni.StructOf(uni.Field{Name: "ID", T: intT}, uni.Field{Name: "Token", T: sens}, uni.Field{Name: "PT", T: uni.PtrTo(sens)}, uni.Field{Name: "Any", T: uni.Iface()}, uni.Field{Name: "L", T: uni.SliceOf(sens)})
+	build := func(which int) *uni.Node {
+		return &uni.Node{T: outer, Elems: []*uni.Node{uni.Int(uni.KInt, 1), mkv(which), uni.Ptr(mkv(which)), uni.InIface(mkv(which)), uni.List(uni.SliceOf(sens), mkv(which))}}
+	}
+	sel := [][]string{{"Token"}, {"PT"}, {"Any"}, {"L", "0"}}[rapid.IntRange(0, 3).Draw(t, "leaf")]
+	op := []bx.Op{bx.OpEq, bx.OpNe, bx.OpIn, bx.OpMatches, bx.OpEmpty, bx.OpNotEmpty, bx.OpNotMatches}[rapid.IntRange(0, 6).Draw(t, "op")]
+	lit := []string{"hunter2", "0", "true", "h", "other"}[rapid.IntRange(0, 4).Draw(t, "lit")]
+	var e bx.Expr = &bx.Match{Sel: bx.Sel{Parts: sel}, Op: op, Lit: lit}
+	if sel[0] == "L" && rapid.Bool().Draw(t, "viaQuantifier") {
+		e = &bx.Quant{Sel: bx.Sel{Parts: []string{"L"}}, Mode: bx.BindValue, Value: "x", Body: &bx.Match{Sel: bx.Sel{Parts: []string{"x"}}, Op: op, Lit: lit}}
+	}
+	o := Opts{}
+	if rapid.IntRange(0, 2).Draw(t, "alttag") == 0 {
+		o.Tag = uni.AltTag
+	}
+	c := &c08Case{EvalCase: *newEvalCase("", e, build(0), o), Twin: build(1)}
+	out, _ := c08Check(t, c, chooser(t))
+	r.Case("sensitive|"+bx.String(e)+fname+string(vt.K)+o.String(), true, map[string]string{"expr": bx.String(e), "d1": c.Datum.String(), "d2": c.Twin.String(), "outcome": out.String()}, "shape:sensitive-leaf", "outcome:"+out.String())
+}
+
 func TestC08_Twins(t *testing.T) {
 	r := rec(t, "C08", c08Rule)
 	rapid.Check(t, func(t *rapid.T) {
+		if rapid.IntRange(0, 9).Draw(t, "sensitiveLeaf") == 0 {
+			c08Sensitive(t, r)
+			return
+		}
 		p := structProfile()
 		// a struct-rich document: containers of structs at the top
 		var ty *uni.Type
